@@ -123,11 +123,18 @@ class Env:
     def env_sexp(self, flags=(1, 1, 1)):
         rules = ['(0 EOI inh both eoi)']
         for i, (name, atom, emis, body, boxed) in enumerate(self.rules):
-            rules.append('(%d %s %s %s %s)' % (i + 1, name, atom, emis, self.sexp(body)))
+            shown = ('r#' + name) if getattr(self, 'raw_names', False) else name
+            rules.append('(%d %s %s %s %s)' % (i + 1, shown, atom, emis, self.sexp(body)))
         preds = ['(%d %s %s)' % (i, n, ' '.join(str(c) for c in self.preds[n])) for i, n in enumerate(sorted(self.preds))]
-        return '(env (skip %s) (flags %d %d %d) (eoi 0) (rules %s) (preds %s))' % (
+        extra = ''
+        if getattr(self, 'ast_sexp', None):
+            extra = ' ' + self.ast_sexp
+            un = getattr(self, 'unicode_index', {})
+            extra += ' (upreds %s)' % ' '.join('(%d %s)' % (un[n], ' '.join(str(c) for c in self.preds[n]))
+                                                for n in sorted(self.preds) if n in un)
+        return '(env (skip %s) (flags %d %d %d) (eoi 0) (rules %s) (preds %s)%s)' % (
             'empty' if self.skip is None else '(rep %s)' % self.sexp(self.skip),
-            flags[0], flags[1], flags[2], ' '.join(rules), ' '.join(preds))
+            flags[0], flags[1], flags[2], ' '.join(rules), ' '.join(preds), extra)
 
     def shape_id(self, i):
         return '%s.s%d' % (self.name, i)
